@@ -117,7 +117,10 @@ Record state := {
   start : list (k2 * start_rec);       (* distribution DelegatorStartingInfo, keyed (delegator, validator) *)
   stake : stk;
   gov   : govst;
-  mig   : migst
+  mig   : migst;
+  locked : list (k2 * Z)               (* bank LockedCoins(address) at the current block time: (address, denom) -> amount
+                                          (vesting accounts; an observation of the state, recomputed by the bank from the
+                                          vesting schedule whenever it is asked) *)
 }.
 
 Inductive err := ESame | ESig | EMigrated | EAccount | EPubKey | EValidator | EToStaking | EGov
@@ -131,22 +134,22 @@ Definition bind {A B} (x : outcome A) (f : A -> outcome B) : outcome B :=
 (* ---------- field updates ---------- *)
 Definition set_bal (s : state) (x : list (k2 * Z)) : state :=
   {| cfg := cfg s; now := now s; height := height s; accts := accts s; vals := vals s; bal := x;
-     start := start s; stake := stake s; gov := gov s; mig := mig s |}.
+     start := start s; stake := stake s; gov := gov s; mig := mig s; locked := locked s |}.
 Definition set_start (s : state) (x : list (k2 * start_rec)) : state :=
   {| cfg := cfg s; now := now s; height := height s; accts := accts s; vals := vals s; bal := bal s;
-     start := x; stake := stake s; gov := gov s; mig := mig s |}.
+     start := x; stake := stake s; gov := gov s; mig := mig s; locked := locked s |}.
 Definition set_stake (s : state) (x : stk) : state :=
   {| cfg := cfg s; now := now s; height := height s; accts := accts s; vals := vals s; bal := bal s;
-     start := start s; stake := x; gov := gov s; mig := mig s |}.
+     start := start s; stake := x; gov := gov s; mig := mig s; locked := locked s |}.
 Definition set_gov (s : state) (x : govst) : state :=
   {| cfg := cfg s; now := now s; height := height s; accts := accts s; vals := vals s; bal := bal s;
-     start := start s; stake := stake s; gov := x; mig := mig s |}.
+     start := start s; stake := stake s; gov := x; mig := mig s; locked := locked s |}.
 Definition set_mig (s : state) (x : migst) : state :=
   {| cfg := cfg s; now := now s; height := height s; accts := accts s; vals := vals s; bal := bal s;
-     start := start s; stake := stake s; gov := gov s; mig := x |}.
+     start := start s; stake := stake s; gov := gov s; mig := x; locked := locked s |}.
 Definition set_clock (s : state) (t : time) (h : Z) : state :=
   {| cfg := cfg s; now := t; height := h; accts := accts s; vals := vals s; bal := bal s;
-     start := start s; stake := stake s; gov := gov s; mig := mig s |}.
+     start := start s; stake := stake s; gov := gov s; mig := mig s; locked := locked s |}.
 
 Definition set_dels (k : stk) x i := {| dels := x; idx71 := i; ubds := ubds k; idx33 := idx33 k; ubdq := ubdq k;
   reds := reds k; idx35 := idx35 k; idx36 := idx36 k; redq := redq k; unbidx := unbidx k |}.
@@ -173,10 +176,24 @@ Definition send1 (a b : addr) (d x : Z) (m : list (k2 * Z)) : list (k2 * Z) :=
   let m1 := put_bal a d (get_bal a d m - x) m in
   put_bal b d (get_bal b d m1 + x) m1.
 
-(* BankMigrate.Execute: GetAllBalances(from); SendCoins(from, to, all of it) *)
-Definition bank_execute (from to : addr) (s : state) : state :=
+Definition locked_of (s : state) (a : addr) (d : Z) : Z :=
+  match sget k2_eqb (a, d) (locked s) with Some x => x | None => 0 end.
+
+(* BankMigrate.Execute: GetAllBalances(from); SendCoins(from, to, all of it).
+   SendCoins first runs subUnlockedCoins over every coin: coin d is refused when
+   balance(d) - LockedCoins(d) < amount(d); the amount is the whole balance, so as soon as anything of a held
+   denomination is locked the send — and with it the migration — fails.  The check of coin d reads only the
+   (from, d) balance, which no other coin's step touches, so it is written as one pass before the moves. *)
+Definition bank_move (from to : addr) (s : state) : state :=
   let coins := filter (fun kv => fst (fst kv) =? from) (bal s) in
   set_bal s (fold_left (fun m kv => send1 from to (snd (fst kv)) (snd kv) m) coins (bal s)).
+
+Definition bank_blocked (from : addr) (s : state) : bool :=
+  existsb (fun kv : k2 * Z => (snd kv - locked_of s from (snd (fst kv))) <? snd kv)
+          (filter (fun kv => fst (fst kv) =? from) (bal s)).
+
+Definition bank_execute (from to : addr) (s : state) : outcome state :=
+  if bank_blocked from s then Err EFunds else Ok (bank_move from to s).
 
 (* ---------- staking / distribution handler ---------- *)
 Definition from_rec2 {V} (a : addr) (kv : k2 * V) : bool := fst (fst kv) =? a.
@@ -310,8 +327,9 @@ Definition migrate_account (s : state) (from to : addr) : outcome state :=
   else bind (check_from s from) (fun _ =>
        bind (staking_validate from to s) (fun _ =>
        bind (gov_validate from to s) (fun _ =>
-       bind (staking_execute from to (bank_execute from to s)) (fun s' =>
-       Ok (set_record from to s'))))).
+       bind (bank_execute from to s) (fun s0 =>
+       bind (staking_execute from to s0) (fun s' =>
+       Ok (set_record from to s')))))).
 
 Section Sig.
   Variable sigT : Type.
@@ -466,7 +484,7 @@ Definition add_deposit (pid : Z) (a : addr) (amt : Z) (s : state) : outcome stat
     | PClosed => Err EProposal
     | st =>
       let d := bond_denom (cfg s) in
-      if bal_of s a d <? amt then Err EFunds
+      if bal_of s a d - locked_of s a d <? amt then Err EFunds
       else
         let s1 := pay a (gov_acc (cfg s)) d amt s in
         let total := p_total p + amt in
